@@ -69,7 +69,7 @@ def canon(hist):
     return (tuple(stack), tuple(inv), tuple(sorted(map(repr, used))))
 
 
-FIELDS = {'T': {'throw': True}, 'A': {'cb': 'A'}, 'S1': {'solver': 'CG1'}, 'TB': {'throw': True, 'cb': 'B'}, 'OP': {'opts': 'P', 'cb': 'A'}}
+FIELDS = {'T': {'throw': True}, 'A': {'cb': 'A'}, 'S1': {'solver': 'CG1'}, 'TB': {'throw': True, 'cb': 'B'}, 'OP': {'opts': 'P'}}
 
 
 def model_fp(stack):
@@ -120,6 +120,23 @@ def plan(tier, seed):
     phases = [
         {'name': 'histories', 'target': TARGET, 'cases': cases, 'x64': False, 'ctx': {'model_states': nstates, 'depth': n}},
     ]
+    pair_hist = []
+    opts = [None] + SETTINGS
+    for s1 in opts:
+        for s2 in opts:
+            for nested in (False, True):
+                h = ([['push', s1]] if s1 else []) + [['mkinv']]
+                if s1 and not nested:
+                    h.append(['pop'])
+                if not s2 and (nested and s1):
+                    continue
+                h += ([['push', s2]] if s2 else []) + [['mkinv']] + ([['pop']] if s2 else [])
+                for order in ([0, 1], [1, 0], [0, 1, 0]):
+                    for kind in ('applyj', 'apply'):
+                        pair_hist.append(h + [[kind if k % 2 == 0 or kind == 'applyj' else 'applyj', i] for k, i in enumerate(order)])
+    seen_h = {repr(c) for c in cases}
+    pair_hist = [h for h in pair_hist if repr(h) not in seen_h]
+    phases.append({'name': 'histories_pairs', 'target': TARGET, 'cases': pair_hist, 'x64': False, 'chunk': 6})
     # event-level interleavings: all ordered pairs of histories x {two threads, parent + copy_context child}
     pairs = []
     for i, j in itertools.product(range(len(SCHED_HISTORIES)), repeat=2):
@@ -174,7 +191,7 @@ def _setup():
     f32 = jnp.float32
     S = DenseBlockDiagonalOperator(jnp.array([[2.0, 1.0], [1.0, 3.0]], f32), jax.ShapeDtypeStruct((2,), f32), 'ij,j->i')
     SINV = DenseBlockDiagonalOperator(jnp.array([[3.0, -1.0], [-1.0, 2.0]], f32) / 5, jax.ShapeDtypeStruct((2,), f32), 'ij,j->i')
-    SET['OP'] = dict(solver_options={'preconditioner': SINV}, solver_callback=cbA)
+    SET['OP'] = dict(solver_options={'preconditioner': SINV})
     import equinox
 
     _W.update(make_fjit=lambda: equinox.filter_jit(lambda inv, x: inv.mv(x)))
@@ -282,8 +299,13 @@ def interpret(hist, problems, obs=None, ev=None, api=None, init_stack=(), spawn_
                 W['calls'].clear()
                 raised = False
                 y = None
+                import contextlib
+                import io
+                import re
+
+                buf = io.StringIO()
                 try:
-                    with quiet():
+                    with contextlib.redirect_stdout(buf):
                         rhs = jnp.array([1.0, 0.0], jnp.float32)
                         if e[0] == 'applyj' and not fjit:
                             fjit.append(W['make_fjit']())   # one jitted function per history: its cache is part of the history's state
@@ -305,6 +327,9 @@ def interpret(hist, problems, obs=None, ev=None, api=None, init_stack=(), spawn_
                             expect('step count follows the captured solver and options', calls[-1][1], 1 if one_step else 2 if want[3] == 'P' else 3)
                     else:
                         expect('no foreign callback fired', calls, [])
+                        m = re.search(r'in (\d+) iterations', buf.getvalue())   # the default callback prints the step count
+                        expect('step count printed by the default callback follows the captured solver and options',
+                               int(m.group(1)) if m else None, 1 if one_step else 2 if want[3] == 'P' else 3)
                 expect('captured config unchanged by use', fp(inv.config), want)
         if not end_state:
             # the history is exhausted: this is the state it reaches (before the interpreter unwinds)
@@ -472,7 +497,7 @@ def run(phase, cases, ctx):
            'per_bound': collections.Counter(), 'samples': [], 'nondeterministic': 0, 'sched_points_max': 0}
     for case in cases:
         res['n'] += 1
-        if phase == 'histories':
+        if phase in ('histories', 'histories_pairs'):
             problems, out = run_history(case)
             res['checks'] += out.get('nchecks', 0)
             key = repr(canon(case))
@@ -512,6 +537,11 @@ def run(phase, cases, ctx):
 
 def finalize(results, tier, seed):
     h = results['histories']
+    hp = results['histories_pairs']
+    for k, v in hp['impl_map'].items():
+        h['impl_map'].setdefault(k, set()).update(v)
+    h['n'] += hp['n']
+    h['checks'] += hp['checks']
     violations = []
     impl_map = h['impl_map']
     # abstraction conformance: equal canonical model state => equal implementation fingerprint
